@@ -13,36 +13,55 @@ from check import Result
 
 META = {
     'level_text': 'Theorems for every class description, every configuration and every datatype oracle: config_applied '
-                  '(an accepted configuration shows on the instance: datatype = class datatype with the configured overrides '
-                  'applied in order, start value = conversion of the configured value by that FINAL datatype, configured own '
-                  'properties stored), writes_once_before_poll (every configured or class-level value of a parameter with a '
-                  'write method is handed to it exactly once, before the first poll; nothing else is written), rejected_whole '
-                  '(unknown name, unknown / ill-typed parameter property, ill-typed value or default, ill-typed module '
-                  'property, missing mandatory property, missing needscfg value, inverted limits => error list non-empty, and '
-                  'createNode registers no such module), errors_complete (every failing module is reported, a module is '
-                  'registered xor reported, the node starts iff nothing is reported), merge_first_wins (load_config keeps, for '
-                  'each name, the definition of the first file that has it, records the origin for merged-in modules and lists '
-                  'names occurring in several files as ambiguous).  rejected_whole is proved for parameters with an own datatype; '
-                  'derived Limit parameters are a recorded finding (their cfg is silently ignored).  The model is tied to '
-                  'frappy/modulebase.py, params.py, properties.py, secnode.py, config.py by a correspondence run over generated '
-                  '(class, cfg) pairs through the real SecNode / load_config, and the Lean monitors judge every observed record.',
+                  '(an accepted configuration shows on the instance: datatype = class datatype - for a Limit parameter the '
+                  'datatype derived from its base - with the configured overrides applied in order, start value = conversion of '
+                  'the configured value by that FINAL datatype, configured own properties stored), modprops_applied (the value '
+                  'configured for a module property - bare, Param(v) or dict - converted by the property datatype is the value '
+                  'of the instance), writes_once_before_poll (every configured or class-level value of a parameter with a '
+                  'write method is handed to it exactly once, before the first poll, for every write oracle incl. common write '
+                  'handlers; nothing else is written), rejected_whole (unknown name, unknown key in a module-property dict, '
+                  'unknown / ill-typed parameter property, ill-typed value or default, ill-typed module property, missing '
+                  'mandatory property, missing needscfg value, inverted limits, derived Limit parameters included => error '
+                  'list non-empty), optional_skipped / optional_cfg_rejected (the constructor loop over `accessibles` with '
+                  'its `continue` for optional, not implemented accessibles is the loop over the implemented ones and never '
+                  'takes their cfg entry out of cfgdict: such an entry is reported), errors_complete (every failing module '
+                  'is reported, a module is registered xor reported, the node starts iff nothing is reported), dsl_faithful '
+                  '(the dict Mod(name, cls, description, args...) builds - Param.__init__ with its Undef sentinel, wrapping of '
+                  'bare values, the Group loop - is the configuration the written text stands for) and its corollary '
+                  'written_config_rejected (an error written in the file, e.g. p=None, is rejected), merge_first_wins / '
+                  'file_last_wins (load_config keeps, for each name, the definition of the first file that has it, records the '
+                  'origin for merged-in modules and lists names occurring in several files as ambiguous).  The hypotheses of '
+                  'the theorems (WellFormed class description, well-written Mod arguments) are checked by Lean on every case '
+                  '(wellFormedB_sound, writtenOkB_sound).  The model is tied to frappy/modulebase.py, params.py, properties.py, '
+                  'secnode.py, config.py by a correspondence run over generated (class, cfg) pairs through the real SecNode / '
+                  'process_file / load_config (streams: module, node, merge, dict built by Mod(...), configuration left '
+                  'unchanged by a start), and the Lean monitors judge every observed record - for config files against the '
+                  'configuration AS WRITTEN, for every module of every start (a clean node is started twice from the same '
+                  'loaded configuration).',
     'level_note': 'Trusted: Lean kernel + axioms propext/Classical.choice/Quot.sound; datatypes are oracles in the theorems '
                   '(laws assumed: none beyond totality; the driver instance for double/int/string/bool/enum/array/tuple on a '
-                  'quarter grid is checked by the correspondence run only); the config DSL is executed Python, only the '
-                  'resulting dictionaries are modelled; error texts are classified by the harness.',
+                  'quarter grid is checked by the correspondence run only); the text of a config file is executed Python - '
+                  'the harness writes the text from the argument lists it sends to Lean; error texts are classified by the '
+                  'harness.  That a start does not alter the loaded configuration (Python aliasing) is outside the pure model: '
+                  'it is observed (correspondence stream) and its consequences are judged on the second start and on modules '
+                  'sharing one Param object.',
     'trusted': [
         'harness classification of error texts into kinds (by the entry they mention)',
         'concrete datatype instance of the driver (FrappyModel/Klass/ConfigDT.lean): exercised, not proved against datatypes.py',
         'values on a quarter grid: binary64 represents them exactly and the relative tolerance of FloatRange.validate never bridges a step',
+        'rendering of the generated argument lists as Python text (repr) and its parsing by exec',
     ],
     'modelled_not_verified': [
-        'exec of the config file text (config.py:process_file); only Mod/Param dictionaries are modelled',
+        'exec of the config file text (config.py:process_file); Mod/Param/Group calls are modelled, arbitrary Python in a file is not',
         'Parameter.finish for `constant`, applyMainUnit ($ units), Command accessibles in the cfg, `datatype` given in the cfg',
         'mandatory properties of Parameter objects (description/datatype): always present in generated classes',
-        'Server._processCfg sys.exit(1): observed as "SecNode.errors non-empty" (subprocess run in thorough tier)',
+        'Server._processCfg sys.exit(1): observed as "SecNode.errors non-empty"; the real Server._processCfg runs in a '
+        'subprocess for one good and one bad configuration only',
+        'Server.restart: observed as a second SecNode built from the same module_cfg objects (what _processCfg does)',
     ],
     'assumptions': ['configuration dicts have unique keys (Python dict)',
-                    'base parameters of Limit parameters precede them and have a datatype'],
+                    'base parameters of Limit parameters precede them and have a datatype',
+                    'a start only reads the loaded configuration (checked by observation on every case)'],
 }
 
 GENMOD = 'frappy_verifc10gen'
@@ -276,7 +295,26 @@ def gen_class(rng, idx):
     if rng.random() < 0.5:
         modprops.append({'name': 'op', 'dt': {'t': 'string', 'minchars': 0, 'maxchars': 8, 'utf8': False}, 'mandatory': False,
                          'classValue': None})
-    return {'id': f'C{idx}', 'params': params, 'modprops': modprops, 'cmd': rng.random() < 0.3, 'groups': groups}
+    # accessibles declared `optional=True` in a base class: the generated class implements any subset of them; the
+    # others do not exist on the module (a cfg entry naming one is an unknown name)
+    optional = []
+    if rng.random() < 0.35:
+        for name in rng.sample(['oa', 'ob'], rng.randint(1, 2)):
+            c = gen_dt(rng, False)
+            impl = rng.random() < 0.5
+            optional.append({'name': name, 'kind': 'param', 'impl': impl, 'dt': c})
+            p = {'name': name, 'dt': c, 'limit': None, 'base': '', 'needscfg': False,
+                 'write': rng.random() < 0.5, 'read': False, 'readonly': rng.random() < 0.3,
+                 'default': wrap(valid_value(rng, c, 'inside')), 'pyvalue_default': None, 'value': None, 'export': True,
+                 'opt': True}
+            if impl:
+                params.append(p)
+            else:
+                optional[-1]['decl'] = p
+        if rng.random() < 0.5:
+            optional.append({'name': 'oc', 'kind': 'cmd', 'impl': rng.random() < 0.5})
+    return {'id': f'C{idx}', 'params': params, 'modprops': modprops, 'cmd': rng.random() < 0.3, 'groups': groups,
+            'optional': optional}
 
 
 def pyval(cv):
@@ -298,9 +336,26 @@ def build_class(spec):
     from frappy.params import Parameter, Command, Limit
     from frappy.properties import Property
     ns = {}
+    basens = {}
+    for o in spec.get('optional', []):
+        if o['kind'] == 'cmd':
+            basens[o['name']] = Command(None, result=None, description='optional command', optional=True)
+            if o['impl']:
+                def ocmd(self):
+                    """optional command, implemented"""
+                ocmd.__name__ = o['name']
+                ns[o['name']] = Command()(ocmd)
+        elif not o['impl']:
+            p = o['decl']
+            basens[p['name']] = Parameter(f'param {p["name"]}', build_dt(p['dt']), readonly=p['readonly'],
+                                          default=pyval(p['default']['v']), optional=True)
     for p in spec['params']:
         name = p['name']
-        if p['limit']:
+        if p.get('opt'):
+            kw = {'readonly': p['readonly'], 'needscfg': p['needscfg'], 'default': pyval(p['default']['v'])}
+            basens[name] = Parameter(f'param {name}', build_dt(p['dt']), optional=True, **kw)
+            ns[name] = Parameter()          # implemented here: properties are inherited
+        elif p['limit']:
             kw = {}
             if p['export'] is not True:
                 kw['export'] = p['export']
@@ -369,7 +424,11 @@ def build_class(spec):
     ns['doPoll'] = doPoll
     ns['_vlog'] = None
     ns['__module__'] = GENMOD
-    cls = type(spec['id'], (Module,), ns)
+    base = Module
+    if basens:
+        basens['__module__'] = GENMOD
+        base = type('B' + spec['id'], (Module,), basens)
+    cls = type(spec['id'], (base,), ns)
     return cls
 
 
@@ -413,6 +472,7 @@ def class_desc(spec, cls):
     params, other = [], []
     for aname, aobj in cls.accessibles.items():
         if aobj.optional:
+            params.append({'name': aname, 'optional': True})
             continue
         if isinstance(aobj, Parameter) and aname in byname:
             p = byname[aname]
@@ -494,7 +554,7 @@ def gen_param_cfg(rng, p, force_value=False):
     return items
 
 
-ERR_KINDS = ['prop_extra_key', 'unknown_name', 'unknown_param_prop', 'bad_value', 'bad_param_prop', 'bad_mod_prop', 'missing_mandatory',
+ERR_KINDS = ['bad_cmd_prop', 'optional_not_implemented', 'prop_extra_key', 'unknown_name', 'unknown_param_prop', 'bad_value', 'bad_param_prop', 'bad_mod_prop', 'missing_mandatory',
              'missing_needscfg', 'inverted', 'bad_default']
 
 
@@ -504,6 +564,31 @@ def inject(rng, spec, cfg, kind):
     if kind == 'unknown_name':
         k = rng.choice(['zz', 'pq', 'Value', 'targett'])
         cfg[k] = rng.choice([('bare', 1), ('dict', [('value', 2)]), ('dict', [('max', 2)])])
+        return kind
+    if kind == 'bad_cmd_prop':
+        cmds = commands_of(spec)
+        if not cmds:
+            return None
+        cname = rng.choice(cmds)
+        ent = cfg.get(cname)
+        items = list(ent[1]) if ent and ent[0] == 'dict' else []
+        k, v = rng.choice([('nosuch', 1), ('unit', 's'), ('readonly', True), ('value', 1), ('visibility', 'nonsense'),
+                           ('visibility', None), ('visibility', 9), ('group', 5), ('description', 7)])
+        items = [kv for kv in items if kv[0] != k]
+        items.insert(rng.randint(0, len(items)), (k, v))
+        cfg[cname] = ('dict', items)
+        return kind
+    if kind == 'optional_not_implemented':
+        cands = [o for o in spec.get('optional', []) if not o['impl']]
+        if not cands:
+            return None
+        o = rng.choice(cands)
+        if o['kind'] == 'cmd':
+            cfg[o['name']] = ('dict', rng.choice([[('visibility', 'expert')], [('group', 'g')], [('description', 'hold it')]]))
+        else:
+            v = valid_value(rng, o['dt'], 'inside')
+            cfg[o['name']] = rng.choice([('dict', [('value', v)]), ('dict', [('value', v), ('readonly', False)]),
+                                         ('dict', [('visibility', 'expert')])])
         return kind
     if kind == 'prop_extra_key':
         names = [m['name'] for m in spec['modprops']] + ['group', 'visibility', 'pollinterval']
@@ -524,8 +609,10 @@ def inject(rng, spec, cfg, kind):
         cands = [('mp', 'x'), ('mp', 99), ('mp', 1.5), ('op', 5), ('op', 'waytoolongvalue'), ('visibility', 'nonsense'),
                  ('visibility', 7), ('pollinterval', 'fast'), ('pollinterval', 1000), ('group', 5), ('export', 'maybe')]
         names = {m['name'] for m in spec['modprops']} | {'visibility', 'pollinterval', 'group', 'export'}
+        cands += [('group', None), ('mp', None), ('visibility', None)]
         k, v = rng.choice([c for c in cands if c[0] in names])
-        cfg[k] = ('bare', v) if rng.random() < 0.5 else ('dict', [('value', v)])
+        # a raw dict can not carry a bare None (`cfgdict.pop(key, None)`): config files wrap every value in Param()
+        cfg[k] = ('bare', v) if rng.random() < 0.5 and v is not None else ('dict', [('value', v)])
         return kind
     if not real:
         return None
@@ -597,6 +684,10 @@ def inject(rng, spec, cfg, kind):
     return kind
 
 
+def commands_of(spec):
+    return (['go'] if spec['cmd'] else []) + [o['name'] for o in spec.get('optional', []) if o['kind'] == 'cmd' and o['impl']]
+
+
 def gen_module_cfg(rng, spec, nerr):
     """-> (cfg dict name -> entry, injected kinds)"""
     cfg = {'description': ('bare', 'module of ' + spec['id'])}
@@ -617,6 +708,12 @@ def gen_module_cfg(rng, spec, nerr):
             items = gen_param_cfg(rng, p, force_value=p['needscfg'] or (ingroup and rng.random() < 0.8))
             if items:
                 cfg[p['name']] = ('dict', items)
+    for cname in commands_of(spec):
+        if rng.random() < 0.35:
+            items = [kv for kv in [('visibility', rng.choice(['expert', 'advanced', 2, 1])), ('group', 'cgrp'),
+                                   ('description', 'cfg text of ' + cname)] if rng.random() < 0.5]
+            rng.shuffle(items)
+            cfg[cname] = ('dict', items)
     kinds = []
     for _ in range(nerr):
         k = inject(rng, spec, cfg, rng.choice(ERR_KINDS))
@@ -673,24 +770,119 @@ def from_jsonable_cfg(cls, j):
 # ----------------------------------------------------------------------------------------
 # DSL path: config files
 # ----------------------------------------------------------------------------------------
-def dsl_mod_text(name, clsname, entries, tag):
-    """text of a Mod(...) call; description must be positional (so it can not be missing through the DSL)"""
+def dsl_forms(rng, entries):
+    """entries of a module cfg -> (description, [[key, form]]) as it will be WRITTEN in the file.
+    form: {'bare': v} | {'param': {'value': {'v': x} | None, 'kw': [[k, x], ...]}, 'valkw': bool, 'var': None}
+          | {'group': [member, ...]} (added by decorate_dsl)"""
     desc = ''
-    args = []
+    forms = []
     for k, (form, v) in entries:
         if k == 'description' and form == 'bare':
-            desc = v
+            desc = v                                    # positional argument of Mod: can not be missing through the DSL
             continue
         if form == 'bare':
-            args.append(f'{k}={v!r}')
+            forms.append([k, {'bare': v}])
+            continue
+        items = list(v)
+        val = [x for kk, x in items if kk == 'value']
+        rest = [[kk, x] for kk, x in items if kk != 'value']
+        if val and not rest and rng.random() < 0.5:
+            forms.append([k, {'bare': val[0]}])         # the shortcut `key=value`
         else:
-            items = list(v)
-            val = [x for kk, x in items if kk == 'value']
-            rest = [(kk, x) for kk, x in items if kk != 'value']
-            inner = ', '.join(([repr(val[0])] if val else []) + [f'{kk}={x!r}' for kk, x in rest])
-            args.append(f'{k}=Param({inner})')
+            forms.append([k, {'param': {'value': {'v': val[0]} if val else None, 'kw': rest},
+                              'valkw': rng.random() < 0.3, 'var': None}])
+    return desc, forms
+
+
+def decorate_dsl(rng, case):
+    """DSL-only ways of writing a configuration: Group(...) arguments, and ONE Param(...) object bound to a variable and
+    used for the same key of several modules of a file"""
+    specs = {sp['id']: sp for sp in case['specs']}
+    nvar = 0
+    for mo in case['mods']:
+        for k, f in mo['dsl']:
+            if 'param' in f and k in commands_of(specs[mo['cls']]) and rng.random() < 0.7:
+                f['ctor'] = 'Command'                      # `Command` is the same class as `Param` in a config file
+        pnames = {p['name'] for p in specs[mo['cls']]['params']}
+        if rng.random() < 0.2:
+            cands = [k for k, f in mo['dsl'] if k in pnames and 'group' not in f]
+            if cands:
+                members = rng.sample(cands, rng.randint(1, min(2, len(cands))))
+                mo['dsl'].insert(rng.randint(0, len(mo['dsl'])), ['grp' + rng.choice('AB'), {'group': members}])
+    for mo in case['mods']:
+        if rng.random() >= 0.35:
+            continue
+        others = [x for x in case['mods'] if x is not mo and x['file'] == mo['file'] and x['cls'] == mo['cls']]
+        grouped = {m for k, f in mo['dsl'] if 'group' in f for m in f['group']}
+        cands = [(k, f) for k, f in mo['dsl'] if 'param' in f and f['var'] is None and k not in grouped]
+        if not others or not cands:
+            continue
+        other = rng.choice(others)
+        ogrouped = {m for k, f in other['dsl'] if 'group' in f for m in f['group']}
+        k, f = rng.choice(cands)
+        if k in ogrouped:
+            continue
+        f['var'] = f'V{nvar}'
+        nvar += 1
+        shared = json.loads(json.dumps(f))
+        for ent in other['dsl']:
+            if ent[0] == k:
+                ent[1] = shared
+                break
+        else:
+            other['dsl'].append([k, shared])
+
+
+def dsl_param_text(f):
+    val = f['param']['value']
+    kws = [f'{kk}={x!r}' for kk, x in f['param']['kw']]
+    if val is not None:
+        if f.get('valkw'):
+            kws.append(f'value={val["v"]!r}')
+        else:
+            kws.insert(0, repr(val['v']))
+    return f.get('ctor', 'Param') + '(' + ', '.join(kws) + ')'
+
+
+def dsl_mod_text(name, clsname, desc, forms, tag):
+    args = []
+    for k, f in forms:
+        if 'bare' in f:
+            args.append(f'{k}={f["bare"]!r}')
+        elif 'group' in f:
+            args.append(f'{k}=Group(' + ', '.join(repr(m) for m in f['group']) + ')')
+        elif f.get('var'):
+            args.append(f'{k}={f["var"]}')
+        else:
+            args.append(f'{k}={dsl_param_text(f)}')
     desc = f'{desc} #{tag}'
     return f'Mod({name!r}, {GENMOD + "." + clsname!r}, {desc!r}' + ''.join(', ' + a for a in args) + ')\n'
+
+
+def dsl_preamble(mods):
+    """variable definitions of a file: each shared Param object is created once"""
+    seen, out = set(), ''
+    for mo in mods:
+        for k, f in mo['dsl']:
+            if 'param' in f and f.get('var') and f['var'] not in seen:
+                seen.add(f['var'])
+                out += f'{f["var"]} = {dsl_param_text(f)}\n'
+    return out
+
+
+def written_cfg(desc, forms, tag, extra):
+    """the module as written, for Lean (read by the specification: `specCfg`; by the model: `modDict`)"""
+    args = []
+    for k, f in forms:
+        if 'bare' in f:
+            args.append([k, {'bare': canon(f['bare'])}])
+        elif 'group' in f:
+            args.append([k, {'group': list(f['group'])}])
+        else:
+            val = f['param']['value']
+            args.append([k, {'param': {'value': None if val is None else {'v': canon(val['v'])},
+                                       'kw': [[kk, canon(x)] for kk, x in f['param']['kw']]}}])
+    return {'descr': canon(f'{desc} #{tag}'), 'args': args, 'extra': extra}
 
 
 # ----------------------------------------------------------------------------------------
@@ -698,7 +890,7 @@ def dsl_mod_text(name, clsname, entries, tag):
 # ----------------------------------------------------------------------------------------
 RX = [
     (re.compile(r"^(\w+): value .* does not match "), lambda m: {'k': 'badModProp', 'key': m.group(1)}),
-    (re.compile(r"^(\w+)\.(value|default|constant): "), lambda m: {'k': 'badValue', 'param': m.group(1), 'key': m.group(2)}),
+    (re.compile(r"^(\w+)\.(\w+): "), lambda m: {'k': 'badValue', 'param': m.group(1), 'key': m.group(2)}),
     (re.compile(r"^limit '(\w+)' is given, but not"), lambda m: {'k': 'limitNoBase', 'param': m.group(1)}),
     (re.compile(r"^(\w+) needs a datatype"), lambda m: {'k': 'noDatatype', 'param': m.group(1)}),
     (re.compile(r"^'(\w+)' has no default value and was not given in config"), lambda m: {'k': 'needsCfg', 'param': m.group(1)}),
@@ -854,7 +1046,8 @@ def observe_module(node, name, spec, cls, effective):
                 pass
         own = []
         if dentry is not None:
-            own = [['readonly', bool(dentry.get('readonly'))], ['visibility', {'n': 4 * int(dentry.get('visibility', 1))}]]
+            own = [['readonly', bool(dentry.get('readonly'))], ['visibility', {'n': 4 * int(dentry.get('visibility', 1))}],
+                   ['group', canon(dentry.get('group', ''))]]
         probes = []
         if (dentry is not None and not dentry.get('readonly') and pn not in limit_bases and not p['limit'] and reach
                 and ('write_' + pn) in cls.wrappedAttributes):
@@ -913,7 +1106,14 @@ def gen_case(rng, idx):
                 entries, kinds = gen_module_cfg(rng, spec, rng.choice([0, 0, 1]))
                 f = rng.choice([x for x in range(nfiles) if x != mo['file']] if rng.random() < 0.9 else [mo['file']])
                 extra.append({'name': mo['name'], 'cls': spec['id'], 'entries': entries, 'kinds': kinds, 'file': f})
-    return {'specs': specs, 'path': path, 'nfiles': nfiles, 'mods': mods + extra}
+    case = {'specs': specs, 'path': path, 'nfiles': nfiles, 'mods': mods + extra}
+    if path == 'dsl':
+        for mo in case['mods']:
+            mo['desc'], mo['dsl'] = dsl_forms(rng, mo['entries'])
+        decorate_dsl(rng, case)
+    # a node without configuration error is started a second time from the SAME loaded configuration (Server.restart)
+    case['restart'] = True
+    return case
 
 
 def effective_cfgs(case, classes, res=None):
@@ -933,8 +1133,9 @@ def effective_cfgs(case, classes, res=None):
             per_file[mo['file']].append((i, mo))
         for f in range(case['nfiles']):
             text = f"Node('eq{f}', 'node {f}', interface='tcp://5000')\n"
+            text += dsl_preamble([mo for _, mo in per_file[f]])
             for i, mo in per_file[f]:
-                text += dsl_mod_text(mo['name'], mo['cls'], mo['entries'], f'{f}.{i}')
+                text += dsl_mod_text(mo['name'], mo['cls'], mo['desc'], mo['dsl'], f'{f}.{i}')
             p = os.path.join(base, f'f{f}_cfg.py')
             with open(p, 'w', encoding='utf-8') as fh:
                 fh.write(text)
@@ -986,22 +1187,45 @@ def run_case(case):
     classes = register_classes(case['specs'])
     specs = {s['id']: s for s in case['specs']}
     eff, merge = effective_cfgs(case, classes)
-    node = make_node({k: dict(v) for k, v in eff.items()})
-    errs = split_errors(node.errors)
-    mods = []
+    # what the configuration SAYS is captured before anything is built from it
+    snap = {}
     for name, d in eff.items():
-        cls = d['cls']
-        spec = specs[cls.__name__]
-        mods.append({'name': name, 'spec': spec, 'cls': class_desc(spec, cls), 'cfg': lean_cfg(cls, d),
-                     'jcfg': jsonable_cfg(d), 'obs': observe_module(node, name, spec, cls, d)})
-    nodeobs = {'configured': list(eff), 'registered': list(node.modules), 'reported': [k for k in errs],
-               'starts': not node.errors}
-    return {'mods': mods, 'node': nodeobs, 'merge': merge}
+        before = lean_cfg(d['cls'], d)
+        if case['path'] == 'dsl':
+            tag = tag_of(d)
+            mo = case['mods'][int(tag.rpartition('.')[2])]
+            keys = {k for k, _ in mo['dsl']} | {'description'}
+            extra = [e for e in before if e[0] not in keys]             # original_id of a merged-in module
+            cfg = written_cfg(mo['desc'], mo['dsl'], tag, extra)
+        else:
+            cfg = before
+        snap[name] = {'before': before, 'cfg': cfg, 'jcfg': json.loads(json.dumps(jsonable_cfg(d)))}
+    gens = []
+    for gen in (1, 2):
+        # Server._processCfg: a new SecNode from Server.module_cfg — the SAME configuration objects at every (re)start
+        node = make_node({k: dict(v) for k, v in eff.items()})
+        errs = split_errors(node.errors)
+        mods = []
+        for name, d in eff.items():
+            cls = d['cls']
+            spec = specs[cls.__name__]
+            mods.append({'name': name, 'spec': spec, 'cls': class_desc(spec, cls), 'cfg': snap[name]['cfg'],
+                         'before': snap[name]['before'], 'after': lean_cfg(cls, d), 'gen': gen, 'dsl': case['path'] == 'dsl',
+                         'jcfg': snap[name]['jcfg'], 'obs': observe_module(node, name, spec, cls, d)})
+        nodeobs = {'configured': list(eff), 'registered': list(node.modules), 'reported': [k for k in errs],
+                   'starts': not node.errors}
+        gens.append({'mods': mods, 'node': nodeobs})
+        if node.errors or not case.get('restart') or os.environ.get('VERIF_C10_NORESTART'):
+            break                       # a node with configuration errors exits: there is no restart
+    return {'gens': gens, 'merge': merge}
 
 
 def module_requests(mo):
-    return [{'p': 'C10', 'k': 'apply', 'cls': mo['cls'], 'cfg': mo['cfg']},
+    reqs = [{'p': 'C10', 'k': 'apply', 'cls': mo['cls'], 'cfg': mo['cfg']},
             {'p': 'C10', 'k': 'judge', 'cls': mo['cls'], 'cfg': mo['cfg'], 'obs': lean_obs(mo['obs'])}]
+    if mo.get('dsl') and mo.get('gen') == 1:
+        reqs.append({'p': 'C10', 'k': 'dsl', 'cfg': mo['cfg']})
+    return reqs
 
 
 def lean_obs(o):
@@ -1010,12 +1234,17 @@ def lean_obs(o):
             'modprops': o['modprops'], 'events': o['events'], 'driver': o['driver']}
 
 
-def compare_module(model, obs):
+def compare_module(model, obs, cmds=()):
     """obs-level differences between the model's answer and the implementation (list of strings)"""
     diffs = []
     if model['ok'] != obs['registered']:
         diffs.append(f'registered: model {model["ok"]} impl {obs["registered"]}')
-    if model['errors'] != obs['errors']:
+    cmds = set(cmds)
+
+    def split(errs):
+        c = [e for e in errs if (e.get('name') if e['k'] == 'unknownProp' else e.get('param') if e['k'] == 'badValue' else None) in cmds]
+        return [e for e in errs if e not in c], c
+    if split(model['errors']) != split(obs['errors']):
         diffs.append(f'errors: model {model["errors"]} impl {obs["errors"]}')
     if model['ok'] and obs['registered']:
         inst = model['inst']
@@ -1048,6 +1277,8 @@ def violation_sig(judge, obs, mo):
         return 'C10:half-applied:registered-and-reported' if obs['registered'] else 'C10:rejected-without-report'
     if not judge['rejected']:
         return 'C10:erroneous-config-accepted'
+    if not judge['modprops']:
+        return 'C10:module-property-not-applied'
     if not judge['applied']:
         bad = [p['name'] for p in obs['params'] if p['described'] is not None and p['reach'] != [p['described']]]
         bad += [p['name'] for p in obs['params'] if p['described'] is None and p['reach']]
@@ -1113,9 +1344,10 @@ def run_single(spec, name, jcfg):
     classes = register_classes([spec])
     cls = classes[spec['id']]
     d = from_jsonable_cfg(cls, jcfg)
+    before = lean_cfg(cls, d)
     node = make_node({name: dict(d)})
-    return {'name': name, 'spec': spec, 'cls': class_desc(spec, cls), 'cfg': lean_cfg(cls, d), 'jcfg': jcfg,
-            'obs': observe_module(node, name, spec, cls, d)}
+    return {'name': name, 'spec': spec, 'cls': class_desc(spec, cls), 'cfg': before, 'before': before, 'jcfg': jcfg,
+            'gen': 1, 'dsl': False, 'obs': observe_module(node, name, spec, cls, d), 'after': lean_cfg(cls, d)}
 
 
 # ----------------------------------------------------------------------------------------
@@ -1130,8 +1362,9 @@ def corpus_cases(ctx):
 
 
 def subprocess_exit_check(ctx, res):
-    """thorough tier: the real `Server._processCfg` in a subprocess: exit status and stderr of a good configuration and
-    of one with two failing modules; the node-level monitor judges (starts iff nothing reported, all failing reported)"""
+    """the real `Server._processCfg` in a subprocess: exit status and stderr of a good configuration (processed twice by the
+    same Server object, as `Server.run` does after `restart`) and of one with two failing modules; the node-level monitor
+    judges (starts iff nothing reported, all failing reported)"""
     import subprocess
     base = tempfile.mkdtemp(prefix='verif-c10-srv-')
     try:
@@ -1144,7 +1377,8 @@ def subprocess_exit_check(ctx, res):
                 "from frappy.lib import generalConfig; generalConfig.testinit(piddir=Path(sys.argv[1]).parent)\n"
                 "from frappy.server import Server\nimport mlzlog\n"
                 "srv = Server('x', mlzlog.MLZLogger('x'), cfgfiles=[sys.argv[1]], interface='tcp://5000', testonly=True)\n"
-                "srv._processCfg()\nprint('REGISTERED', ' '.join(srv.secnode.modules))\n")
+                "srv._processCfg()\nprint('REGISTERED', ' '.join(srv.secnode.modules))\n"
+                "srv._processCfg()\nprint('REGISTERED2', ' '.join(srv.secnode.modules))\n")
         for tag, (mods, _) in cases.items():
             p = os.path.join(base, f'{tag}_cfg.py')
             with open(p, 'w') as f:
@@ -1155,8 +1389,11 @@ def subprocess_exit_check(ctx, res):
             out = pr.stdout.decode(errors='replace')
             configured = re.findall(r"Mod\('(\w+)'", mods)
             registered = []
+            second = None
             for line in out.splitlines():
-                if line.startswith('REGISTERED'):
+                if line.startswith('REGISTERED2'):
+                    second = line.split()[1:]
+                elif line.startswith('REGISTERED'):
                     registered = line.split()[1:]
             reported = sorted(set(re.findall(r'error creating (?:module )?(\w+)', err)))
             if pr.returncode != 0 and not reported:
@@ -1168,6 +1405,15 @@ def subprocess_exit_check(ctx, res):
             res.evaluations += 1
             res.traces += 1
             res.count(f'subprocess.{tag}.exit={pr.returncode}')
+            if pr.returncode == 0:
+                # the second _processCfg of the same Server object: again every module, nothing reported
+                obs2 = dict(obs, registered=second or [])
+                a2 = ctx.driver.batch([dict(obs2, p='C10', k='judge_node')])[0]
+                res.evaluations += 1
+                res.traces += 1
+                res.count(f'subprocess.{tag}.second-start.registered={len(obs2["registered"])}')
+                if not a2.get('ok'):
+                    a, obs = a2, obs2
             if not a.get('ok'):
                 res.violations.append({'sig': 'C10:processCfg-exit', 'what': f'Server._processCfg ({tag} cfg): exit {pr.returncode}, {obs}',
                                        'case': {'kind': 'subprocess', 'tag': tag}})
@@ -1180,16 +1426,80 @@ def subprocess_errors():
     return (subprocess.TimeoutExpired, OSError)
 
 
+def case_sigs(ctx, case):
+    """all violation signatures a whole case (every module of every start) shows -> {sig: (mo, judge)}"""
+    out = run_case(case)
+    sigs = {}
+    for g in out['gens']:
+        for mo in g['mods']:
+            a = judge_module(ctx, mo)
+            sig = violation_sig(a[1], mo['obs'], mo)
+            if sig and sig not in sigs:
+                sigs[sig] = (mo, a[1])
+    return sigs
+
+
+def shrink_case(ctx, case, sig, limit=40):
+    """a failing input which needs its context (the text of the config file, a second module sharing a Param object, a
+    second start): drop modules, then written arguments, while the same signature persists"""
+    runs = [0]
+
+    def fails(c):
+        if runs[0] >= limit:
+            return False
+        runs[0] += 1
+        try:
+            return sig in case_sigs(ctx, c)
+        except Exception:
+            return False
+    cur = json.loads(json.dumps(case))
+    changed = True
+    while changed:
+        changed = False
+        for i in range(len(cur['mods'])):
+            if len(cur['mods']) > 1:
+                cand = json.loads(json.dumps(cur))
+                del cand['mods'][i]
+                if fails(cand):
+                    cur, changed = cand, True
+                    break
+            key = 'dsl' if cur['path'] == 'dsl' else 'entries'
+            for t in range(len(cur['mods'][i][key])):
+                cand = json.loads(json.dumps(cur))
+                del cand['mods'][i][key][t]
+                if fails(cand):
+                    cur, changed = cand, True
+                    break
+            if changed:
+                break
+    return cur
+
+
+def case_text(case):
+    """how the failing configuration reads (for the report line)"""
+    if case['path'] != 'dsl':
+        return json.dumps([[mo['name'], mo['entries']] for mo in case['mods']], default=str)[:400]
+    out = []
+    for f in range(case['nfiles']):
+        mods = [(i, mo) for i, mo in enumerate(case['mods']) if mo['file'] == f]
+        out.append(dsl_preamble([mo for _, mo in mods]) +
+                   ''.join(dsl_mod_text(mo['name'], mo['cls'], mo['desc'], mo['dsl'], f'{f}.{i}') for i, mo in mods))
+    return ' | '.join(t.replace('\n', '; ') for t in out)[:500]
+
+
 def run(ctx):
     res = Result()
     res.rule = ('a case = one node: 1-4 modules of generated classes (1-5 parameters of double/int/string/bool/enum/array '
                 'datatypes, with/without write_/read_ methods, groups of 2-3 parameters sharing a rwhandler.CommonWriteHandler / '
                 'WriteHandler / a hand-written write_<p> popping its siblings from writeDict (started through the real '
-                'startModule + poll thread), needscfg, class-level values, Limit parameters, mandatory and '
-                'optional module properties), cfg through raw dicts or through 1-3 merged config files (Mod/Param DSL), any '
-                'subset configured, values inside/at/outside limits, overrides of min/max/unit/visibility/export/readonly/'
-                'group/description in any key order, 0-4 injected errors of 9 kinds; non-trivial = a module that is registered '
-                'with at least one configured parameter entry, or rejected with an injected error')
+                'startModule + poll thread), needscfg, class-level values, Limit parameters, optional accessibles declared in a '
+                'base class and implemented or not, mandatory and optional module properties), cfg through raw dicts or '
+                'through 1-3 merged config files written with the DSL (Mod / Param(v, k=..) / bare value / Group / one Param '
+                'object bound to a variable and used by several modules), any subset configured, values inside/at/outside '
+                'limits, overrides of min/max/unit/visibility/export/readonly/group/description in any key order, 0-4 '
+                'injected errors of 12 kinds (commands configured, too); a node without configuration error is started a second time from the same '
+                'loaded configuration; non-trivial = a module that is registered with at least one configured parameter '
+                'entry, or rejected with an injected error')
     rng = ctx.rng
     n = ctx.budget(450, 4500)
     shrunk = 0
@@ -1202,49 +1512,68 @@ def run(ctx):
         cases.append(('gen', gen_case(rng, idx)))
     O01 = 0
     for origin, case in cases:
+        if origin == 'corpus' and case.get('kind') == 'node':
+            origin, case = 'gen', case['case']
         if origin == 'corpus':
             try:
                 r = run_single(case['spec'], case['name'], case['jcfg'])
             except Exception as e:
                 res.notes.append(f'corpus case failed to run: {e!r}')
                 continue
-            out = {'mods': [r], 'node': None, 'merge': None}
+            out = {'gens': [{'mods': [r], 'node': None}], 'merge': None}
         else:
             out = run_case(case)
         reqs = []
-        for mo in out['mods']:
-            reqs += module_requests(mo)
-        if out['node'] is not None:
-            reqs.append({'p': 'C10', 'k': 'node', 'mods': [{'name': mo['name'], 'cls': mo['cls'], 'cfg': mo['cfg']} for mo in out['mods']]})
-            reqs.append(dict(out['node'], p='C10', k='judge_node'))
+        for g in out['gens']:
+            for mo in g['mods']:
+                mo['pos'] = len(reqs)
+                reqs += module_requests(mo)
+            if g['node'] is not None:
+                g['pos'] = len(reqs)
+                reqs.append({'p': 'C10', 'k': 'node',
+                             'mods': [{'name': mo['name'], 'cls': mo['cls'], 'cfg': mo['cfg']} for mo in g['mods']]})
+                reqs.append(dict(g['node'], p='C10', k='judge_node'))
         if out['merge'] is not None:
+            mpos = len(reqs)
             reqs.append({'p': 'C10', 'k': 'merge', 'files': out['merge']['files_raw']})
             reqs.append({'p': 'C10', 'k': 'judge_merge', 'files': out['merge']['files_obs'], 'merged': out['merge']['merged']})
         ans = ctx.driver.batch(reqs)
         for x in ans:
             if 'driver_error' in x:
                 raise RuntimeError(f'driver error: {x}')
-        pos = 0
-        for mo in out['mods']:
-            model, judge = ans[pos], ans[pos + 1]
-            pos += 2
+        if origin == 'gen':
+            res.count('path.' + case['path'])
+            res.count('starts=%d' % len(out['gens']))
+            if case['path'] == 'dsl' and any(f.get('var') for mo in case['mods'] for _, f in mo['dsl']):
+                res.count('dsl.file-shares-a-param-object')
+        for g in out['gens']:
+          for mo in g['mods']:
+            model, judge = ans[mo['pos']], ans[mo['pos'] + 1]
             obs = mo['obs']
             res.evaluations += 1
             res.traces += 1
-            nitems = sum(len(e[1].get('acc', [])) for e in mo['cfg'])
+            wargs = mo['cfg']['args'] if isinstance(mo['cfg'], dict) else []
+            nitems = sum(len(e[1].get('acc', [])) for e in mo['before'])
             res.count('module.registered' if obs['registered'] else 'module.rejected')
             res.count('module.offending' if judge['offending'] else 'module.clean')
             res.count('errors.n=%d' % min(len(obs['errors']), 4))
             for e in obs['errors']:
                 res.count('errkind.' + e['k'])
-            for g in mo['spec'].get('groups', []):
-                ncfg = sum(1 for e in mo['cfg'] if e[0] in g['keys'] and any(k == 'value' for k, _ in e[1].get('acc', [])))
-                res.count('writegroup.%s.configured=%s' % (g['kind'], min(ncfg, 3)))
+            for k, a in wargs:
+                res.count('dsl.arg.' + ('bare' if 'bare' in a else 'group' if 'group' in a else
+                                        'param' if a['param']['value'] is not None else 'param-novalue'))
+            if mo['gen'] == 2:
+                res.count('module.second-start')
+            if any(p.get('optional') for p in mo['cls']['params']):
+                res.count('class.has-unimplemented-optional')
+            for gr in mo['spec'].get('groups', []):
+                ncfg = sum(1 for e in mo['before'] if e[0] in gr['keys'] and any(k == 'value' for k, _ in e[1].get('acc', [])))
+                res.count('writegroup.%s.configured=%s' % (gr['kind'], min(ncfg, 3)))
                 if obs['registered'] and any(e[0] == 'write' and e[3] for e in obs['events']):
                     res.count('writegroup.call-consumed-siblings')
             res.count('cfg.items=%s' % ('0' if nitems == 0 else '1-3' if nitems < 4 else '4-8' if nitems < 9 else '9+'))
             if (obs['registered'] and nitems) or (not obs['registered'] and judge['offending']):
-                res.nontriv({'cls': mo['cls'], 'cfg': mo['cfg']})
+                res.nontriv({'cls': mo['cls'], 'cfg': mo['cfg'], 'gen': mo['gen']})
             for p in obs['params']:
                 if p['probes']:
                     res.count('probes', len(p['probes']))
@@ -1253,45 +1582,78 @@ def run(ctx):
             if len(res.samples) < 4 and nitems >= 2 and len(json.dumps(mo['cfg'])) < 500:
                 res.samples.append({'cfg': mo['cfg'], 'registered': obs['registered'], 'errors': obs['errors'],
                                     'events': obs['events']})
+            modcase = {'kind': 'module', 'spec': mo['spec'], 'name': mo['name'], 'jcfg': mo['jcfg']}
+            ctxcase = {'kind': 'node', 'case': case} if origin == 'gen' else modcase
             if any(e['k'] == 'other' for e in obs['errors']):
-                res.disagreements.append({'case': {'kind': 'module', 'spec': mo['spec'], 'name': mo['name'], 'jcfg': mo['jcfg']},
-                                          'model': 'error text not classified', 'impl': obs['errors']})
+                res.disagreements.append({'case': modcase, 'model': 'error text not classified', 'impl': obs['errors']})
             elif ctx.model_ok:
-                diffs = compare_module(model, obs)
+                diffs = compare_module(model, obs, mo['cls']['other']) if model.get('loads', True) else ['model: the file does not load']
+                if mo.get('dsl') and mo['gen'] == 1:
+                    d = ans[mo['pos'] + 2]
+                    mcfg = (d['cfg'] + mo['cfg']['extra']) if d['loads'] else None
+                    if mcfg != mo['before']:
+                        diffs.append(f'dict built by Mod(...): model {json.dumps(mcfg)[:300]} impl {json.dumps(mo["before"])[:300]}')
+                if not judge['hyp']:
+                    diffs.append('the class description / the written module is outside the hypotheses of the theorems '
+                                 '(WellFormed, WrittenOk, GroupsOk)')
+                if mo['after'] != mo['before']:
+                    diffs.append(f'the configuration is only read: impl changed it to {json.dumps(mo["after"])[:300]} '
+                                 f'from {json.dumps(mo["before"])[:300]}')
                 if diffs:
-                    res.disagreements.append({'case': {'kind': 'module', 'spec': mo['spec'], 'name': mo['name'], 'jcfg': mo['jcfg']},
-                                              'model': diffs[:4], 'impl': {'registered': obs['registered'], 'errors': obs['errors']}})
+                    res.disagreements.append({'case': ctxcase if (mo.get('dsl') or mo['gen'] == 2) else modcase, 'model': diffs[:4],
+                                              'impl': {'registered': obs['registered'], 'errors': obs['errors']}})
             sig = violation_sig(judge, obs, mo)
             if sig:
                 res.count('violation.' + sig)
-                jcfg = mo['jcfg']
-                if shrunk < 6 and not any(v['sig'] == sig for v in res.violations):
+                vcase, text = modcase, json.dumps(mo['jcfg'])[:300]
+                first = not any(v['sig'] == sig for v in res.violations)
+                if first and origin == 'gen':
+                    # does the module alone, configured by the dict the DSL produced, show it?  else the failing input is the
+                    # case as a whole (text of the file / the other module sharing a Param object / the second start)
+                    try:
+                        r1 = run_single(mo['spec'], mo['name'], mo['jcfg'])
+                        alone = violation_sig(judge_module(ctx, r1)[1], r1['obs'], r1) == sig
+                    except Exception:
+                        alone = False
+                    if not alone:
+                        vcase = ctxcase
+                        if shrunk < 6:
+                            shrunk += 1
+                            try:
+                                vcase = {'kind': 'node', 'case': shrink_case(ctx, case, sig)}
+                            except Exception:
+                                pass
+                        text = case_text(vcase['case'])
+                elif origin == 'gen' and (mo.get('dsl') or mo['gen'] == 2):
+                    vcase, text = ctxcase, case_text(case)
+                if vcase['kind'] == 'module' and first and shrunk < 6:
                     shrunk += 1
                     try:
-                        jcfg = shrink_module(ctx, mo, sig)
+                        vcase = dict(modcase, jcfg=shrink_module(ctx, mo, sig))
+                        text = json.dumps(vcase['jcfg'])[:300]
                     except Exception:
                         pass
+                start = '' if mo['gen'] == 1 else ' at the SECOND start from the same loaded configuration'
                 res.violations.append({'sig': sig,
-                                       'what': f'{sig}: class {mo["spec"]["id"]} cfg={json.dumps(jcfg)[:300]} -> registered={obs["registered"]} '
-                                               f'errors={obs["errors"]} judge={judge}',
-                                       'case': {'kind': 'module', 'spec': mo['spec'], 'name': mo['name'], 'jcfg': jcfg}})
-        if out['node'] is not None:
-            model, judge = ans[pos], ans[pos + 1]
-            pos += 2
+                                       'what': f'{sig}: module {mo["name"]} (class {mo["spec"]["id"]}){start}, cfg: {text} -> '
+                                               f'registered={obs["registered"]} errors={obs["errors"]} '
+                                               f'modprops={obs["modprops"]} judge={judge}',
+                                       'case': vcase})
+          if g['node'] is not None:
+            model, judge = ans[g['pos']], ans[g['pos'] + 1]
             res.evaluations += 1
             res.traces += 1
-            res.count('node.modules=%d' % len(out['node']['configured']))
-            res.count('node.failing=%d' % min(len(out['node']['reported']), 3))
-            if ctx.model_ok and (model['registered'] != out['node']['registered'] or model['starts'] != out['node']['starts']
-                                 or [e[0] for e in model['errors']] != out['node']['reported']):
-                res.disagreements.append({'case': {'kind': 'node', 'case': case}, 'model': model, 'impl': out['node']})
+            res.count('node.modules=%d' % len(g['node']['configured']))
+            res.count('node.failing=%d' % min(len(g['node']['reported']), 3))
+            if ctx.model_ok and (model['registered'] != g['node']['registered'] or model['starts'] != g['node']['starts']
+                                 or [e[0] for e in model['errors']] != g['node']['reported']):
+                res.disagreements.append({'case': {'kind': 'node', 'case': case}, 'model': model, 'impl': g['node']})
             if not judge['ok']:
                 res.violations.append({'sig': 'C10:node:failing-module-not-reported',
-                                       'what': f'node-level report incomplete: {out["node"]}',
+                                       'what': f'node-level report incomplete: {g["node"]}',
                                        'case': {'kind': 'node', 'case': case}})
         if out['merge'] is not None:
-            model, judge = ans[pos], ans[pos + 1]
-            pos += 2
+            model, judge = ans[mpos], ans[mpos + 1]
             res.evaluations += 1
             res.traces += 1
             res.count('merge.files=%d' % len(out['merge']['files_raw']))
@@ -1306,7 +1668,7 @@ def run(ctx):
     res.notes.append(f'observation O01 (not demanded by the statement): {O01} registered modules had a configured value outside '
                      f'the limits: it is cached as start value, write_<p> is called once and refuses it (RangeError logged), the '
                      f'driver function is not reached')
-    if (ctx.tier == 'thorough' or os.environ.get('VERIF_C10_SUBPROCESS')) and not ctx.escalated:
+    if not ctx.escalated and not os.environ.get('VERIF_C10_NO_SUBPROCESS'):
         try:
             subprocess_exit_check(ctx, res)
         except subprocess_errors() as e:
@@ -1332,17 +1694,21 @@ def replay(ctx, rp):
         print(r.dist, r.violations)
         return 1 if r.violations else 0
     out = run_case(case['case'])
-    reqs = [dict(out['node'], p='C10', k='judge_node')]
+    print('config :', case_text(case['case']))
+    bad = False
+    for g in out['gens']:
+        reqs = [dict(g['node'], p='C10', k='judge_node')]
+        a = ctx.driver.batch(reqs)
+        print('node   :', g['node'], a)
+        bad = bad or any(not x.get('ok') for x in a)
+        for mo in g['mods']:
+            j = judge_module(ctx, mo)
+            sig = violation_sig(j[1], mo['obs'], mo)
+            print(f'start {mo["gen"]} module {mo["name"]}: registered={mo["obs"]["registered"]} errors={mo["obs"]["errors"]} '
+                  f'modprops={mo["obs"]["modprops"]} judge={j[1]}' + (f'  <-- {sig}' if sig else ''))
+            bad = bad or bool(sig)
     if out['merge'] is not None:
-        reqs.append({'p': 'C10', 'k': 'judge_merge', 'files': out['merge']['files_obs'], 'merged': out['merge']['merged']})
-    a = ctx.driver.batch(reqs)
-    print('node   :', out['node'])
-    print('merge  :', out['merge'] and out['merge']['merged'])
-    print('judge  :', a)
-    bad = any(not x.get('ok') for x in a)
-    for mo in out['mods']:
-        j = judge_module(ctx, mo)
-        if violation_sig(j[1], mo['obs'], mo):
-            print('module', mo['name'], j[1])
-            bad = True
+        a = ctx.driver.batch([{'p': 'C10', 'k': 'judge_merge', 'files': out['merge']['files_obs'], 'merged': out['merge']['merged']}])
+        print('merge  :', out['merge']['merged'], a)
+        bad = bad or any(not x.get('ok') for x in a)
     return 1 if bad else 0
